@@ -35,7 +35,7 @@ ASSUMPTIONS = [
     'metadata for the dataframe/export checks is non-jagged',
 ]
 ANCHORS = ['Table.sum', 'Table.min', 'Table.max', 'Table.nonzero_counts', 'Table.reduce', 'Table.get_table_density', 'compute_counts_per_sample_stats', '_summarize_table', 'Table.to_dataframe', 'Table.metadata_to_dataframe', '_export_metadata']
-REQUIRED = ['metadata_given_as_tuples', 'reduce_callable_kinds_checked', 'sum_checked', 'minmax_checked', 'minmax_negative_only_vectors',
+REQUIRED = ['stats_with_non_finite_count', 'metadata_given_as_tuples', 'reduce_callable_kinds_checked', 'sum_checked', 'minmax_checked', 'minmax_negative_only_vectors',
             'nonzero_counts_checked', 'trailing_empty_vector_cases',
             'reduce_checked', 'stats_checked', 'summarize_default',
             'summarize_qualitative', 'summarize_observations',
@@ -335,6 +335,28 @@ def run_case(ctx, index):
                     fail('stats-counts-%s' % binary, '%r vs %r' % (
                         counts, dict(zip(spec.samp_ids, per.tolist()))))
             ctx.count('stats_checked')
+            if D.shape[1] >= 2 and D.any() and r.random() < .3:
+                # a sample whose count is not a finite number (a NaN cell, or
+                # +inf and -inf together): the statistics of the counts are
+                # what numpy computes for them, NaN included
+                D2 = D.copy()
+                j = r.randrange(1, D.shape[1])
+                i = r.randrange(D.shape[0])
+                D2[i, j] = r.choice([float('nan'), float('inf'),
+                                     float('-inf')])
+                t2 = biom.Table(D2.copy(), list(spec.obs_ids),
+                                list(spec.samp_ids))
+                per = D2.sum(axis=0)
+                with np.errstate(all='ignore'):
+                    ref = [per.min(), per.max(), np.median(per), per.mean()]
+                    mn, mx, med, mean, counts = \
+                        compute_counts_per_sample_stats(t2)
+                got = [float(mn), float(mx), float(med), float(mean)]
+                if not np.allclose(got, ref, rtol=1e-12, atol=1e-12 *
+                                   _SCALE[0], equal_nan=True):
+                    fail('stats-non-finite', 'counts %r: min/max/median/mean '
+                         '%r vs %r' % (per.tolist(), got, ref))
+                ctx.count('stats_with_non_finite_count')
         elif what == 'summarize':
             from biom.cli.table_summarizer import _summarize_table
             for q, o, nm in ((False, False, 'default'),
